@@ -36,6 +36,7 @@ fn seqs(alpha: &[&str], max_len: usize) -> Vec<Vec<String>> {
 }
 
 fn impl_cmp(a: &str, b: &str) -> Result<Ordering, String> {
+    let _subject = run::SubjectGuard::enter();
     std::panic::catch_unwind(|| Apath::from(a).cmp(&Apath::from(b))).map_err(|_| run::take_last_panic().unwrap_or_default())
 }
 
@@ -48,6 +49,7 @@ pub fn walk_order_case(tree: &crate::tree::Tree, hunk: usize, srcs: &SrcCache, s
     let mut expected: Vec<String> = tree.keys().map(|k| crate::tree::apath_of(k)).collect();
     expected.sort_by(|a, b| apath_cmp(a, b));
     // Source walk
+    let subject = run::SubjectGuard::enter();
     let walked: Result<Vec<String>, String> = std::panic::catch_unwind(|| {
         let st = SourceTree::open(&dir).map_err(|e| e.to_string())?;
         let it = st
@@ -56,6 +58,7 @@ pub fn walk_order_case(tree: &crate::tree::Tree, hunk: usize, srcs: &SrcCache, s
         Ok(it.map(|e| e.apath().to_string()).collect())
     })
     .unwrap_or_else(|_| Err(format!("panic: {}", run::take_last_panic().unwrap_or_default())));
+    drop(subject);
     match walked {
         Err(e) => v.push(Violation::new("C11:source-walk-failed", format!("tree {brief}: {e}"))),
         Ok(w) => {
@@ -301,6 +304,33 @@ pub fn run(report: &Report, budget: &Budget) {
     let names = ["a", "a-b", "a.b", "a b", "ab", "é", ".h", "~"];
     let shapes = gen::shapes(&names, &[K::Dir, K::File, K::Link], if thorough { 4 } else { 3 }, 3);
     let srcs = SrcCache::new();
+    // Fixed larger trees first: sibling directories whose names extend one another with a byte
+    // below or above '/', each holding files, a sub-directory and a sub-sub-directory (the queue of
+    // directories still to be walked holds entries of several depths at once).
+    {
+        let scratch = Scratch::new("c11big");
+        for (ti, names) in [vec!["a", "a-b", "a.b", "a b", "ab", "a~"], vec!["conf", "conf.d", "é", "é-", "éé"]].iter().enumerate() {
+            let mut t = crate::tree::empty_tree();
+            for (i, n) in names.iter().enumerate() {
+                let mt = crate::tree::T0 + 2000 + i as i64;
+                t.insert(n.to_string(), crate::tree::Node::dir(mt));
+                t.insert(format!("{n}/f"), crate::tree::Node::file(b"f", mt));
+                t.insert(format!("{n}/sub"), crate::tree::Node::dir(mt));
+                t.insert(format!("{n}/sub/g"), crate::tree::Node::file(b"g", mt));
+                t.insert(format!("{n}/sub/deeper"), crate::tree::Node::dir(mt));
+                t.insert(format!("{n}/sub/deeper/h"), crate::tree::Node::file(b"h", mt));
+                t.insert(format!("{n}/sub-x"), crate::tree::Node::dir(mt));
+                t.insert(format!("{n}/sub-x/i"), crate::tree::Node::symlink("f", mt));
+            }
+            t.insert("b".into(), crate::tree::Node::file(b"b", crate::tree::T0 + 2100));
+            for hunk in [1usize, 2, 5, 1000] {
+                for v in walk_order_case(&t, hunk, &srcs, &scratch) {
+                    report.violation(&v, &json!({"kind": "c11-tree", "tree": crate::tree::tree_to_json(&t), "hunk": hunk}));
+                }
+            }
+            report.set(&format!("fixed_tree_{ti}_entries"), json!(t.len()));
+        }
+    }
     let scratches: Vec<Scratch> = (0..crate::util::n_workers()).map(|_| Scratch::new("c11")).collect();
     let trees_done = AtomicUsize::new(0);
     let tdone2 = par_for(shapes.len(), budget, |w, i| {
